@@ -43,19 +43,22 @@ def nand2 (aw rw a b : Nat) : Nat := Leaf.not1 rw (Leaf.and2 aw a b)
 /-- `Nor2(a, b, r)` bitwise.py:460-486: `Mid` has the width of `a` -/
 def nor2 (aw rw a b : Nat) : Nat := Leaf.not1 rw (Leaf.or2 aw a b)
 
-/-- `Nor(ins, r)` bitwise.py:425-457: `Mid` has the width of `ins[0]` (`w0`) -/
-def norN (w0 rw : Nat) (ins : List Nat) : Nat := Leaf.not1 rw (orN w0 ins)
+/-- `Nor(ins, r)` bitwise.py:425-457: `Mid` has the width of `r` (since /repo commit 5a57ad0; before it `Mid` had the width of
+    `ins[0]`, which dropped the upper bits of wider later inputs) -/
+def norN (rw : Nat) (ins : List Nat) : Nat := Leaf.not1 rw (orN rw ins)
 
-/-- `Xor2(a, b, r)` bitwise.py:736-766, four NANDs; `Mid`, `XOut`, `YOut` have the width of `a`; the inner `Mid` of every
-    Nand2 has the width of ITS first operand -/
+/-- `Xor2(a, b, r)` bitwise.py:736-766, four NANDs; `Mid`, `XOut`, `YOut` have the width of `r` (since /repo commit 4cfd4ac;
+    before it they had the width of `a`, which set the upper result bits when `r` was wider than `a`); the inner `Mid` of
+    every Nand2 has the width of ITS first operand -/
 def xor2 (aw bw rw a b : Nat) : Nat :=
-  let mid := nand2 aw aw a b          -- Nand2(self, "NandMid", a, b, mid)
-  let xout := nand2 aw aw a mid       -- Nand2(self, "NandX", a, mid, xout)
-  let yout := nand2 bw aw b mid       -- Nand2(self, "NandY", b, mid, yout)
-  nand2 aw rw xout yout               -- Nand2(self, "NandR", xout, yout, r)
+  let mid := nand2 aw rw a b          -- Nand2(self, "NandMid", a, b, mid)
+  let xout := nand2 aw rw a mid       -- Nand2(self, "NandX", a, mid, xout)
+  let yout := nand2 bw rw b mid       -- Nand2(self, "NandY", b, mid, yout)
+  nand2 rw rw xout yout               -- Nand2(self, "NandR", xout, yout, r)
 
 /-- `Xor(ins, r)` bitwise.py:769-817; inputs are `(width, value)`.  `num==2`: Xor2; `num<3`: raises; otherwise a ladder
-    of Xor2 whose intermediate wires have the width of `r` (so the first Xor2 sees width of `ins[0]`, later ones `rw`) -/
+    of Xor2 whose intermediate wires `xor{i}` have the width of `r` (so the first Xor2 sees the width of `ins[0]`, later ones `rw`;
+    inside every Xor2 all wires have the width of its result, i.e. `rw`) -/
 def xorN (rw : Nat) : List (Nat × Nat) → Nat
   | [] => 0
   | [_] => 0
